@@ -17,8 +17,10 @@ V = vlib.VERIF
 H1 = ("-DGD_VERIF_BUFFER_SIZE=64 -DGD_VERIF_BZIP_BUFFER_SIZE=64 -DGD_VERIF_LZMA_DATA_OUT=64 "
       "-DGD_VERIF_LZMA_DATA_IN=64 -DGD_VERIF_LZMA_LOOKBACK=16")
 BZBUF = 64
-FMT = {"UINT8": "B", "INT8": "b", "UINT16": "H", "INT16": "h", "UINT32": "I", "INT32": "i", "UINT64": "Q", "INT64": "q"}
-SIZE = {"UINT8": 1, "INT8": 1, "UINT16": 2, "INT16": 2, "UINT32": 4, "INT32": 4, "UINT64": 8, "INT64": 8}
+FMT = {"UINT8": "B", "INT8": "b", "UINT16": "H", "INT16": "h", "UINT32": "I", "INT32": "i", "UINT64": "Q", "INT64": "q", "FLOAT32": "f", "FLOAT64": "d"}
+SIZE = {"UINT8": 1, "INT8": 1, "UINT16": 2, "INT16": 2, "UINT32": 4, "INT32": 4, "UINT64": 8, "INT64": 8, "FLOAT32": 4, "FLOAT64": 8}
+NATIVE = {"INT8": "i8", "UINT8": "u8", "INT16": "i16", "UINT16": "u16", "INT32": "i32", "UINT32": "u32", "INT64": "i64", "UINT64": "u64",
+          "FLOAT32": "f32", "FLOAT64": "f64"}
 EXT = {"none": "", "gzip": ".gz", "bzip2": ".bz2", "lzma": ".xz", "sie": ".sie", "text": ".txt"}
 MODEL_ENC = {"none": "r", "gzip": "r", "bzip2": "b", "text": "t"}
 FLAGS = ["fix_bz_rewind", "fix_bz_eof", "fix_here", "fix_text_pseudo", "fix_leak", "fix_negseek", "fix_phase_sign", "fix_bz_err"]
@@ -119,10 +121,21 @@ def make_dirfile(d, case):
         t += derived_line(f) + "\n"
     for l in case.get("extra_lines", []):       # fields that cannot be read (see gen_failing): literal format lines
         t += l + "\n"
+    inc = case.get("include")
+    if inc:
+        # a second, empty fragment of another encoding / byte order (gd_move target); same frame offset
+        t += "/INCLUDE sub.fmt\n"
+        open(os.path.join(d, "sub.fmt"), "w").write("/ENCODING %s\n/ENDIAN %s\n%s" % (
+            inc["enc"], "big" if inc["endian"] == "b" else "little", "/FRAMEOFFSET %d\n" % case["foff"] if case.get("foff") else ""))
     open(os.path.join(d, "format"), "w").write(t)
 
 
 # ---------------------------------------------------------------- specification oracle (whole-field contents)
+def bswap(v, t):
+    if SIZE[t] == 1: return v
+    return struct.unpack(">" + FMT[t], struct.pack("<" + FMT[t], v))[0]
+
+
 class Spec:
     """Values by absolute sample number, and the documented I/O pointer rules (gd_seek(3),
     gd_getdata(3), gd_raw_close(3)); a pointer the documents do not determine is None."""
@@ -136,6 +149,7 @@ class Spec:
         self.tail = {r["name"]: list(r.get("tail", [])) for r in case["raws"]}
         self.data = {r["name"]: list(r["vals"]) for r in case["raws"]}
         self.ptr = {r["name"]: self.foff for r in case["raws"]}
+        self.enc = case.get("enc")
 
     def put(self, f, at, vals):
         """gd_putdata of vals at absolute sample `at` of RAW field f (in-place encoding): a hole is zero filled;
@@ -188,8 +202,36 @@ class Spec:
             return float("nan") if self.fl else 0      # _GD_FillZero(start, return_type)
         raise ValueError(kd)
 
+    endian = "l"
+
     def alter(self, o):
-        """apply a gd_alter_* / gd_put_constant op to the metadata"""
+        """apply a gd_alter_* / gd_put_constant op to the metadata; F E N R V O are the changes that move or rewrite the data
+        files: what every sample is afterwards (gd_alter_frameoffset(3), gd_alter_endianness(3), gd_alter_encoding(3),
+        gd_alter_entry(3), gd_rename(3), gd_move(3))"""
+        if o[0] == "a" and o[1] in "FENRVO":
+            k = o[1]; spf = self.case.get("spf", 1)
+            if k == "F":
+                new, rec = o[2], o[3]; d = new * spf - self.foff
+                if rec:
+                    # the files are shifted so that every frame keeps its number: the front is cut or padded
+                    for r in self.data:
+                        self.data[r] = self.data[r][d:] if d > 0 else [0] * (-d) + self.data[r]
+                self.foff = new * spf
+                for r in self.ptr: self.ptr[r] = self.foff
+            elif k == "E":
+                if not o[3] and o[2] != self.endian:
+                    for r in self.data: self.data[r] = [bswap(v, self.raw[r]["type"]) for v in self.data[r]]
+                self.endian = o[2]
+            elif k == "N": self.enc = o[2]
+            elif k == "R": self.raw[o[2]] = dict(self.raw[o[2]], type=o[3])
+            elif k == "V":
+                old, new = o[2], o[3]
+                for dct in (self.raw, self.data, self.tail, self.ptr): dct[new] = dct.pop(old)
+                self.raw[new] = dict(self.raw[new], name=new)
+                for g in self.der.values():
+                    for key in ("in", "a", "b", "cnt"):
+                        if g.get(key) == old: g[key] = new
+            return
         if o[0] == "C": self.const[o[1]] = o[2]; return
         kind, f = o[1], o[2]; g = self.der[f]
         if kind == "P": g.update({"in": o[3], "shift": o[4]})
@@ -307,6 +349,7 @@ def op_line(op):
     if k == "r": return "r"
     if k == "x": return "x"
     if k == "p": return "p %s %s %d %s %s" % (op[1], op[2], op[3], op[4], " ".join(str(v) for v in op[5]))
+    if k == "a" and op[1] == "R": return "a R %s %s %d" % (op[2], NATIVE[op[3]], op[4])
     if k == "a": return "a " + " ".join(str(v) for v in op[1:])
     if k == "C": return "C %s %d" % (op[1], op[2])
     raise ValueError(op)
@@ -375,7 +418,7 @@ def fresh_answers(exe, d, case, idxs, asks=None):
 def in_model(case, strict=True):
     if case["enc"] not in MODEL_ENC: return False
     if any(f["kind"] not in "PLBM" for f in case.get("derived", [])): return False
-    if case.get("mixed") or case.get("extra_lines"): return False
+    if case.get("mixed") or case.get("extra_lines") or case.get("recode") or case.get("boundary"): return False
     if any(o[0] in "kxaC" for o in case["ops"]): return False
     if any(o[0] == "p" for o in case["ops"]) and case["enc"] != "none": return False     # writes: in-place encoding only
     if any(f.get("mc") or f.get("bc") for f in case.get("derived", [])): return False
@@ -910,6 +953,7 @@ ALTER_KEY = "C02/alter/literal-equal-to-stale-cached-value-keeps-the-CONST-value
 MPLEX_ALTER_KEY = "C02/mplex/start-value-cache-survives-metadata-change"
 MPLEX_KEY = "C02/mplex/lookback-restores-pointers-with-whence-as-file-mode"
 MPLEX_CACHE_KEY = "C02/mplex/start-value-cache-survives-putdata-on-an-input"
+GZPAD_KEY = "C02/gzip/padding-of-an-empty-field-is-uninitialised-memory"
 
 WITNESSES = {
     MPLEX_ALTER_KEY: dict(
@@ -940,6 +984,11 @@ WITNESSES = {
         enc="none", raws=[dict(name="a", type="UINT8", vals=list(range(200)))],
         derived=[dict(name="q", kind="P", shift=-3, **{"in": "a"})],
         ops=[("g", "q", 0, 5, "i64"), ("g", "q", 0, 2, "i64"), ("r",)]),
+    # an EMPTY gzip field padded by a recode to a smaller frame offset: the padding is left to gzseek()+gzclose() on a stream
+    # nothing was written to; zlib then compresses a buffer it never cleared (whatever the heap held: here the input's bytes)
+    GZPAD_KEY: dict(
+        enc="gzip", foff=3, raws=[dict(name="a", type="INT32", vals=[]), dict(name="b", type="INT32", vals=[1, 2, 3])],
+        ops=[("g", "b", 3, 3, "i64"), ("a", "F", 1, 1), ("g", "a", 0, 12, "i64")]),
 }
 
 
@@ -962,6 +1011,158 @@ DAMAGE_WITNESS = dict(
     ops=[("g", "a", 0, 10, "i64"), ("g", "a", 5000, 4, "i64"), ("g", "a", 10, 5, "i64"),
          ("g", "a", 950, 70, "i64"), ("g", "a", 900, 5, "i64")])
 
+
+
+# ---------------------------------------------------------------- changes that move or rewrite data files, in the middle of histories
+RECODE_KEY = "C02/recode/reads-after-a-data-moving-change-differ-from-the-contents"
+def gen_recode(rng):
+    case = gen_case(rng, encs=["none", "none", "gzip", "bzip2", "lzma", "sie", "text"], model_only=True)
+    for r in case["raws"]:
+        r.pop("tail", None)
+        # an empty data file is left out: what padding it gets is encoding specific, an empty .sie file cannot be opened,
+        # and see the listed finding about gzip
+        if not r["vals"]: r["vals"] = [rng.randint(0, 100) for _ in range(rng.randint(1, 9))]
+    if len(case["raws"]) >= 2: case["raws"][1]["vals"] = (case["raws"][1]["vals"] * len(case["raws"][0]["vals"]))[:len(case["raws"][0]["vals"])]
+    case["recode"] = True
+    if rng.random() < 0.4: case["include"] = dict(enc=rng.choice(["none", "gzip", "bzip2", "lzma", "sie"]), endian=rng.choice("bl"))
+    sp = Spec(case)
+    spf = case["spf"]
+    ops = []
+    moved = set(); recoded = False
+    nren = 0
+    for _ in range(rng.randint(12, 45)):
+        raws = sorted(sp.raw); fields = raws + sorted(sp.der)
+        f = rng.choice(fields); e = sp.eof(f); u = rng.random()
+        pos = lambda: rng.choice([rng.randint(0, max(1, e + 2)), max(0, e - rng.randint(0, 5)), sp.foff + rng.randint(0, 4)])
+        if u < 0.5:
+            st = pos(); n = rng.choice([1, 2, 3, 8, 20, 70])
+            T = "i64" if sp.ok_type(f, st, n, "i64") else "f64"
+            ops.append(("g", f, st, n, T))
+        elif u < 0.58: ops.append(("g", f, "H", rng.choice([1, 3, 9]), "i64"))
+        elif u < 0.66: ops.append(("s", f, pos(), "S"))
+        elif u < 0.72 and sp.enc == "none" and not recoded and not moved:
+            rr = rng.choice(raws); t = sp.raw[rr]["type"]
+            lo, hi = (0, 255) if t == "UINT8" else (-128, 127) if t == "INT8" else (-400, 400) if t[0] == "I" else (0, 800)
+            at = rng.randint(sp.foff, sp.foff + len(sp.data[rr]) + 2); vs = [rng.randint(lo, hi) for _ in range(rng.randint(1, 5))]
+            ops.append(("p", rr, at, len(vs), "i64", vs)); sp.put(rr, at, vs)
+        elif u < 0.76: ops.append((rng.choice("cf"), rng.choice([f, "*"])))
+        elif u < 0.80: ops.append(("t", f))
+        else:
+            # a change that moves or rewrites data files, with files left open wherever the calls before left them
+            c = rng.choice("FFFFEENNRRVO")
+            cur = sp.foff // spf
+            if c == "F":
+                new = rng.choice([x for x in (0, 1, 2, 3, 5, cur + 1, max(0, cur - 1)) if x != cur])
+                o = ("a", "F", new, 1 if rng.random() < 0.8 else 0)
+                if o[3] and (new - cur) * spf >= min(len(v) for v in sp.data.values()): continue      # would empty a data file
+            elif c == "E":
+                rec = 1 if rng.random() < 0.7 or sp.enc in ("sie", "text") or case.get("include") or any(SIZE[sp.raw[r]["type"]] > 2 for r in raws) else 0      # (swapped 4-byte values would leave the range products are exact in)
+                o = ("a", "E", "b" if sp.endian == "l" else "l", rec)
+            elif c == "N":
+                o = ("a", "N", rng.choice([x for x in ("none", "gzip", "bzip2", "lzma", "sie", "text") if x != sp.enc]), 1)
+            elif c == "R":
+                rr = rng.choice(raws); vals = sp.data[rr]
+                ok = [t for t in ("INT16", "INT32", "INT64", "UINT16", "UINT32", "UINT64", "INT8", "UINT8") if t != sp.raw[rr]["type"]
+                      and all(rep(v, NATIVE[t]) for v in vals)]
+                if not ok: continue
+                o = ("a", "R", rr, rng.choice(ok), 1)
+            elif c == "V":
+                rr = rng.choice(raws); nren += 1; o = ("a", "V", rr, "%sn%d" % (rr.split("n")[0], nren))
+            else:
+                if not case.get("include"): continue
+                rr = rng.choice(raws); o = ("a", "O", rr, 0 if rr in moved else 1)
+                moved.symmetric_difference_update({rr})
+            if c in "NO": recoded = True
+            ops.append(o); sp.alter(o)
+    case["ops"] = ops
+    return case
+
+
+# ---------------------------------------------------------------- every return type, values at the edges of the types
+BOUNDARY_KEY = "C02/return-type/exactly-representable-value-differs-by-return-type"
+def f32(x):
+    try: return struct.unpack("<f", struct.pack("<f", x))[0]
+    except OverflowError: return None
+
+def exact_in(v, T):
+    """is the real number v (python int or float, finite) exactly representable in return type T"""
+    if T in ("f64", "c128"): return float(v) == v if isinstance(v, int) else True
+    if T in ("f32", "c64"):
+        if isinstance(v, int) and float(v) != v: return False
+        r = f32(float(v)); return r is not None and r == v
+    if isinstance(v, float):
+        if v != int(v): return False
+        v = int(v)
+    lo, hi = _RANGE[T]
+    if T == "i64": lo, hi = -2**63, 2**63 - 1
+    if T == "u64": lo, hi = 0, 2**64 - 1
+    return lo <= v <= hi
+
+BOUNDS = [0, 1, -1, 2, 127, 128, 255, 256, -128, -129, 32767, 32768, 65535, 65536, -32768, -32769,
+          2**24, 2**24 + 1, 2**31 - 1, 2**31, 2**31 + 1, -2**31, -2**31 - 1, 2**32 - 1, 2**32, 2**32 + 1, 2**53 - 1, 2**53, 2**53 + 1, 2**53 + 2,
+          2**62, 2**63 - 1, 2**63 - 1024, 2**63, 2**63 + 2048, 2**63 + 2**40, 2**64 - 2048, 2**64 - 2**40, 2**64 - 1, -2**63, -2**63 + 1, -2**62,
+          0.5, -0.5, 2.5, 1e30, -1e30, 3e9 + 0.5, 1e19]
+
+def gen_boundary(rng):
+    """RAW fields of every native type holding values at the edges of every return type, and LINCOM(1, 0) / PHASE
+    views of them; every field read in EVERY return type: wherever the value is exactly representable in the
+    return type the answer is that value -- the same in every return type"""
+    enc = rng.choice(["none", "none", "gzip", "sie"])
+    n = rng.randint(8, 40)
+    raws = []
+    for i in range(rng.randint(1, 3)):
+        t = rng.choice(list(NATIVE))
+        pool = [v for v in BOUNDS if exact_in(v, NATIVE[t])]
+        vals = [rng.choice(pool) if rng.random() < 0.8 else rng.choice([v for v in (rng.randint(-300, 300), rng.randint(0, 200)) if exact_in(v, NATIVE[t])] or [0]) for _ in range(n)]
+        vals = [float(v) for v in vals] if t in ("FLOAT32", "FLOAT64") else [int(v) for v in vals]
+        raws.append(dict(name="r%d" % i, type=t, vals=vals))
+    derived = []
+    for j in range(rng.randint(0, 3)):
+        src = rng.choice([r["name"] for r in raws] + [f["name"] for f in derived])
+        if rng.random() < 0.5: derived.append(dict(name="d%d" % j, kind="L", m=1, b=0, **{"in": src}))
+        else: derived.append(dict(name="d%d" % j, kind="P", shift=rng.choice([0, 1, 2]), plain=True, **{"in": src}))
+    case = dict(enc=enc, spf=1, foff=0, raws=raws, derived=derived, boundary=True)
+    fields = [r["name"] for r in raws] + [f["name"] for f in derived]
+    ops = []
+    for _ in range(rng.randint(6, 30)):
+        f = rng.choice(fields); s = rng.randint(0, n - 1); k = rng.choice([1, 1, 2, 5, n])
+        ops.append(("g", f, s, k, rng.choice(ALL_TYPES)))
+        if rng.random() < 0.6:
+            # the same samples in other return types, straight away
+            for T in rng.sample(ALL_TYPES, rng.randint(1, 4)): ops.append(("g", f, s, k, T))
+    case["ops"] = ops
+    return case
+
+def bval(case, f, k):
+    """(value, through a LINCOM?) of sample k"""
+    for r in case["raws"]:
+        if r["name"] == f: return (r["vals"][k] if 0 <= k < len(r["vals"]) else None), False
+    g = [x for x in case["derived"] if x["name"] == f][0]
+    if g["kind"] == "P": return bval(case, g["in"], k + g["shift"])
+    v, _ = bval(case, g["in"], k)
+    return v, True
+
+def judge_boundary(case, res):
+    bad = []; seen = {}
+    for i, (o, (tok, _)) in enumerate(zip(case["ops"], res)):
+        if o[0] != "g" or tok[0] != "g": continue
+        f, s, n, T = o[1:5]
+        if tok[2] != "0": bad.append((i, "data", "E " + tok[2])); continue
+        vals = tok[3:3 + int(tok[1])]
+        for j, t in enumerate(vals):
+            v, lin = bval(case, f, s + j)
+            if v is None: bad.append((i, "no sample %d" % (s + j), t)); break
+            key = (f, T, s + j)
+            if seen.setdefault(key, t) != t: bad.append((i, "sample %d = %s as before" % (s + j, seen[key]), t)); break
+            # through a LINCOM the value passes through double precision arithmetic
+            if lin and not exact_in(v, "f64"): continue
+            if not exact_in(v, T): continue
+            t0 = t.split(";")[0]
+            try: got = int(t0) if T not in FLOAT_TYPES else float(t0)
+            except ValueError: got = float(t0)
+            if got != v:
+                bad.append((i, "sample %d = %r (exactly representable in %s)" % (s + j, v, T), t)); break
+    return bad
 
 
 # ---------------------------------------------------------------- long runs of failing calls
@@ -1549,6 +1750,48 @@ def main():
             sorted(set(str(o) for o in small["ops"][:-1]))[:3], small["ops"][-1], got[:100], exp[:100], case["extra_lines"]),
             {"kind": "impl-vs-spec", "case": small, "op_index": len(small["ops"]) - 1, "expected": exp, "got": got,
              "how": "checks/C02.py make_dirfile + harness/C02/gdhist.c"})
+
+    # ---- 2f. data-moving metadata changes (frame offset / byte order / encoding / RAW type with recode, rename and move
+    #          with the data) in the MIDDLE of histories, files left open wherever the calls before left them
+    nrec = 150 if not chk.thorough else 3000
+    rec_bad = None
+    for k in range(nrec):
+        case = gen_recode(rng)
+        dd = os.path.join(work, "rec"); make_dirfile(dd, case)
+        rc1, out, res = run_impl(exe, dd, case, rw=True, timeout=40)
+        evals += len(res)
+        b = judge_spec(case, res) if len(res) == len(case["ops"]) else [(len(res), "an answer", "process died rc=%d: %s" % (rc1, out[-200:].replace("\n", " ")))]
+        if b and rec_bad is None: rec_bad = (case, b[0])
+    chk.cov["recode_histories"] = nrec
+    if rec_bad:
+        case, (i, exp, got) = rec_bad
+        found_any = True
+        small = shrink(exe, work, case, i) if i < len(case["ops"]) else case
+        chk.violation(RECODE_KEY, "%s: %s%s, frame offset %d: after %s op %s returns %s, the contents say %s" % (
+            RECODE_KEY, case["enc"], " + fragment %s" % case["include"] if case.get("include") else "", case["foff"],
+            [o for o in small["ops"][:-1]][-6:], small["ops"][-1], got[:100], exp[:100]),
+            {"kind": "impl-vs-spec", "case": small, "op_index": len(small["ops"]) - 1, "expected": exp, "got": got,
+             "how": "checks/C02.py make_dirfile + harness/C02/gdhist.c (opened GD_RDWR)"})
+
+    # ---- 2g. the same value in every return type: values at the edges of the types, all native types, all return types
+    nbnd = 200 if not chk.thorough else 4000
+    bnd_bad = None
+    for k in range(nbnd):
+        case = gen_boundary(rng)
+        dd = os.path.join(work, "bnd"); make_dirfile(dd, case)
+        rc1, out, res = run_impl(exe, dd, case)
+        evals += len(res)
+        b = judge_boundary(case, res) if len(res) == len(case["ops"]) else [(len(res), "an answer", "process died rc=%d: %s" % (rc1, out[-200:].replace("\n", " ")))]
+        if b and bnd_bad is None: bnd_bad = (case, b[0])
+    chk.cov["boundary_histories"] = nbnd
+    if bnd_bad:
+        case, (i, exp, got) = bnd_bad
+        found_any = True
+        c2 = dict(case, ops=[case["ops"][i]] if i < len(case["ops"]) else case["ops"])
+        chk.violation(BOUNDARY_KEY, "%s: %s, fields %s: %s returns %s, expected %s" % (
+            BOUNDARY_KEY, case["enc"], [(r["name"], r["type"]) for r in case["raws"]] + [derived_line(f) for f in case["derived"]],
+            case["ops"][i] if i < len(case["ops"]) else "", got[:100], exp[:120]),
+            {"kind": "impl-vs-spec", "case": c2, "op_index": 0, "expected": exp, "got": got, "how": "checks/C02.py make_dirfile + harness/C02/gdhist.c"})
 
     # ---- 3. decide
     reported = set()
